@@ -34,7 +34,7 @@ NP_RE = re.compile(r"""^\$(?:\[(?:0|[1-9][0-9]*)\]|\['(?:[\x20-\x26\x28-\x5b\x5d
 
 def plan(tier, seed):
     n = 15 if tier == "quick" else 46
-    return [{"kind": "w0"}] + [{"n": 500 if tier == "quick" else 10000, "profile": ["unique", "mixed"][i % 2]} for i in range(n)]
+    return [{"kind": "w0"}, {"kind": "scale"}] + [{"n": 500 if tier == "quick" else 10000, "profile": ["unique", "mixed"][i % 2]} for i in range(n)]
 
 
 def install():
@@ -235,6 +235,22 @@ def run(spec, ctx):
     install()
     if spec.get("kind") == "w0":
         run_w0(ctx)
+        return
+    if spec.get("kind") == "scale":
+        # locations far into long arrays and wide objects, and far down deep documents
+        for n in (9, 10, 11, 99, 100, 101, 1000, 16383, 16385, 65537):
+            doc = {"a": [[i] for i in range(n)], "o": {"k%d" % i: {"v": i} for i in range(min(n, 2000))}}
+            for text in ("$.a[-3:]", "$.a[%d,%d,0]" % (n - 1, -n), "$.a[::%d]" % max(1, n // 5), "$.a[-1][0]", "$.o.*.v" if n <= 1000 else "$.o.k7.v", "$.a[?@[0] >= %d]" % (n - 2), "$..[?@.v == %d]" % (min(n, 2000) - 1)):
+                check_case(ctx, text, doc, "scale")
+            ctx.cell("scale", "length=%d" % n)
+        for depth in (50, 99, 101, 150, 300):
+            v = {"leaf": [depth]}
+            for i in range(depth):
+                v = {"c": v} if i % 2 else [v]
+            for text in ("$..leaf", "$..leaf[0]", "$..[?@.leaf]"):
+                check_case(ctx, text, v, "scale")
+            ctx.cell("scale", "depth=%d" % depth)
+        ctx.count("H2_matches_checked", hooks.STATE.h2_checked)
         return
     r = ctx.rng
     # directed: every hostile name at depth 1-2, as member of objects inside arrays
